@@ -595,8 +595,7 @@ class ProgGen:
   def program(self):
     rng = self.rng
     self.classes, self.tvars = [], []
-    out = "from typing import *\n" if self.p(0.85) else \
-        "from typing import Any, Callable, Dict, Generic, List, Literal, Optional, Set, Tuple, Type, TypeVar, Union, overload\n"
+    out = "from typing import Any, Callable, Dict, Generic, List, Literal, Optional, Set, Tuple, Type, TypeVar, Union, overload\n"
     if self.p(0.1):
       out += "import typing\n"
     for t in rng.sample(["T", "S", "KT"], rng.choice([0, 0, 1, 2])):
